@@ -53,17 +53,34 @@ def check_nds(case):
     from deephyper.skopt.moo import non_dominated_set, pareto_front
 
     Y = np.array(case["pts"], dtype=float)
+    form = case.get("form", "f64")
     if case.get("oned"):
         Yin = Y[:, 0]
+        form = "f64"
     else:
         Yin = Y
+        # the same point set handed over in another legal form (only when the values survive the conversion exactly)
+        if form == "int" and np.all(Y == np.round(Y)) and np.all(np.abs(Y) < 2.0 ** 62):
+            Yin = Y.astype(np.int64)
+        elif form == "f32" and np.all(Y.astype(np.float32).astype(float) == Y):
+            Yin = Y.astype(np.float32)
+        elif form == "fortran":
+            Yin = np.asfortranarray(Y)
+        elif form == "view":  # every second row / column of a bigger array
+            big = np.full((2 * Y.shape[0], 2 * Y.shape[1]), 1e300)
+            big[::2, ::2] = Y
+            Yin = big[::2, ::2]
+        elif form == "list":
+            Yin = [[float(v) for v in row] for row in Y]
+        else:
+            form = "f64"
     P = to_int_pts(Y)
     m = model()
-    y0 = Yin.copy()
+    y0 = [list(r) for r in Yin] if isinstance(Yin, list) else Yin.copy()
     mask = non_dominated_set(Yin, return_mask=True)
     idx = non_dominated_set(Yin, return_mask=False)
-    res = dict(ok=True, kind="oracle", clause="", nontrivial=nontrivial(P), desc=["n=%d" % len(P), "m=%d" % len(P[0])], sig={})
-    if not np.array_equal(y0, Yin):
+    res = dict(ok=True, kind="oracle", clause="", nontrivial=nontrivial(P), desc=["n=%d" % len(P), "m=%d" % len(P[0]), "form=" + form], sig={})
+    if (y0 != Yin) if isinstance(Yin, list) else not np.array_equal(y0, Yin):
         return dict(res, ok=False, clause="input_mutated", detail="input array changed")
     mask_l = [bool(b) for b in mask]
     if len(mask_l) != len(P) or not m.call(F_OKNDS, [P, mask_l]):
@@ -269,6 +286,9 @@ def rand_pts(rng, n, m, kind):
             v = [rng.choice([a + b, round(a + b, 10)])] + [rng.choice([0.5, 0.25]) for _ in range(m - 1)]
             pts.append(v)
         return pts
+    if kind == "ints":  # integer-valued objectives, small (many ties) or around a huge offset
+        off = rng.choice([0, 0, 2 ** 40, -(2 ** 52)])
+        return [[float(off + rng.randint(-3, 3)) for _ in range(m)] for _ in range(n)]
     if kind == "near_tie":
         # values of large magnitude that differ by tiny RELATIVE margins (down to one ulp): every strict difference counts
         base = [float(rng.choice([1.0, 1e5, 3.0 * 2 ** 17, 1e9, -1e5])) for _ in range(m)]
@@ -291,7 +311,8 @@ def rand_pts(rng, n, m, kind):
     raise ValueError(kind)
 
 
-KINDS = ["float", "grid", "equal_sum", "dups", "chain", "absorb", "near_equal_sum", "near_tie"]
+FORMS = ["f64", "int", "list", "f32", "fortran", "view", "f64"]
+KINDS = ["float", "grid", "equal_sum", "dups", "chain", "absorb", "near_equal_sum", "near_tie", "ints"]
 
 
 def gen_floats(count):
@@ -301,7 +322,7 @@ def gen_floats(count):
             n = rng.choice([1, 2, 3, 5, 8, 13, 30, 80, 200]) if tier != "search" else rng.randint(1, 12)
             m = rng.randint(1, 6)
             pts = rand_pts(rng, n, m, KINDS[i % len(KINDS)])
-            yield dict(pts=pts, oned=False, sort=rng.random() < 0.3)
+            yield dict(pts=pts, oned=False, sort=rng.random() < 0.3, form="int" if KINDS[i % len(KINDS)] == "ints" and i % 2 else FORMS[(i // len(KINDS)) % len(FORMS)])
             if i % 7 == 0 and n > 1:  # a permutation of the same set
                 q = pts[:]
                 rng.shuffle(q)
